@@ -44,6 +44,8 @@ SENSITIVITY = {
 }
 # default action "terminate" or "core dump" (SIGSTOP-like and default-ignored signals excluded)
 TERM_SIGNALS = [1, 2, 3, 4, 5, 6, 7, 8, 9, 10, 11, 12, 13, 14, 15, 16, 24, 25, 26, 27, 29, 30, 31] + list(range(34, 65))
+# the interpreter ignores SIGPIPE and SIGXFSZ and a pty child inherits that (subprocess restores them)
+INHERITED_IGNORED = (('sig', 13), ('sig', 25))
 DESCR = {'C09': 'exit status truth', 'C10': 'lifecycle safety'}
 
 
@@ -204,6 +206,8 @@ def sweep(ctx, codes, sigs, npaths=None):
     for fate in [('exit', c) for c in codes] + [('sig', g) for g in sigs]:
         env = ['env', 'exit', fate[1]] if fate[0] == 'exit' else ['env', 'sig', fate[1]]
         for tr, paths in (('pty', PTY_PATHS), ('popen', POPEN_PATHS)):
+            if tr == 'pty' and fate in INHERITED_IGNORED:
+                continue
             for j, path in enumerate(paths):
                 if npaths is not None and (j + fate[1]) % len(paths) >= npaths:
                     continue
@@ -218,7 +222,8 @@ def sweep(ctx, codes, sigs, npaths=None):
                 if tr == 'popen' and fate[0] == 'sig' and j == 0:
                     # PopenSpawn.kill(sig) as the cause of death
                     cases.append({'tr': tr, 'disp': 'default', 'items': [O('Kill', fate[1]), O('Wait'), O('Wait')], 'gen': 'sweep'})
-        cases.append({'tr': 'run', 'fate': list(fate), 'gen': 'run'})
+        if fate not in INHERITED_IGNORED:
+            cases.append({'tr': 'run', 'fate': list(fate), 'gen': 'run'})
     return cases
 
 
@@ -247,10 +252,10 @@ def build_corpus(ctx):
                           'fd/socket': 'all sequences <= 4'}
     else:
         if quick:
-            cases += sweep(ctx, range(256), TERM_SIGNALS, npaths=5)
-            cases += pty_enumeration(ctx, 3, [9], DEAD + mid(3, False), 'pty-enum3-dead', with_normal_exit=False)
-            exhaustive = {'sweep': 'all 256 codes and %d signals x 5 of 12 pty / 4 popen paths (rotating)' % len(TERM_SIGNALS),
-                          'pty': 'all sequences <= 3 over 12 operations x 5 death dispositions'}
+            cases += sweep(ctx, range(256), TERM_SIGNALS, npaths=8)
+            cases += pty_enumeration(ctx, 3, [9], PRIMARY + DEAD + mid(3, False), 'pty-enum3', with_normal_exit=False)
+            exhaustive = {'sweep': 'all 256 codes and %d signals x 8 of 12 pty paths (rotating) and all 4 popen paths, + run(withexitstatus=True) for each' % len(TERM_SIGNALS),
+                          'pty': 'all sequences <= 3 over 13 operations x 9 dispositions'}
         else:
             cases += sweep(ctx, range(256), TERM_SIGNALS)
             cases += pty_enumeration(ctx, 4, [9, 19], DEAD + mid(4, False), 'pty-enum4-dead')
@@ -319,6 +324,10 @@ def nontrivial(ev):
     return False
 
 
+class NoSuitableTrace(tlc.TLCError):
+    pass
+
+
 def self_test(ctx, uniq, verdicts):
     """corrupt one logged field of an accepted trace -> the trace specification must reject it"""
     def find(pred):
@@ -328,7 +337,7 @@ def self_test(ctx, uniq, verdicts):
             for i, e in enumerate(t['ev']):
                 if e['e'] == 'op' and pred(t, i, e):
                     return t, i
-        raise tlc.TLCError('self-test: no suitable trace in the corpus')
+        raise NoSuitableTrace('self-test: no suitable accepted trace in the corpus')
 
     muts = []
 
@@ -437,8 +446,16 @@ def run(ctx):
         v, at = verdicts[t['id']]
         c = cases[owner[t['id']]]
         ctx.fail(v, {'case': c}, detail={'failing_event': at - 1, 'events': t['ev'][:at - 1]}, signature=facts(c, t['ev'], at))
-    st_self = self_test(ctx, uniq, verdicts)
-    ctx.note('binding self-test: ' + ', '.join('%s -> %s' % kv for kv in sorted(st_self.items())))
+    try:
+        st_self = self_test(ctx, uniq, verdicts)
+        ctx.note('binding self-test: ' + ', '.join('%s -> %s' % kv for kv in sorted(st_self.items())))
+    except NoSuitableTrace as e:
+        if not confirmed:
+            raise
+        # so much of the corpus is rejected that no accepted trace of the needed shape is left:
+        # the rejections themselves are the result of this run
+        st_self = {'skipped': str(e)}
+        ctx.note('binding self-test skipped (%s); %d violating traces are reported instead' % (e, len(confirmed)))
     status, nviol, nknown = common.conclude(ctx)
     nontriv = sum(1 for t in uniq if nontrivial(t['ev']))
     mid_i = len(uniq) // 2
@@ -487,7 +504,7 @@ def replay(ctx):
         raise tlc.TLCError('replay could not be executed: ' + o['error'])
     ev = strip(o['ev'])
     v, _ = validate(ctx, [{'id': 'replay', 'ev': ev}], 'replay', procs=1)
-    print('replay verdict: %s at event %d' % v['replay'])
+    print('replay verdict: %s at event %d' % (v['replay'][0], v['replay'][1] - 1))
     for e in ev:
         print('   ', json.dumps(e))
     if v['replay'][0].startswith(ctx.pid + ':'):
